@@ -1,6 +1,6 @@
 ---------------------------- MODULE Trace_Sources ----------------------------
 (* Judges recorded listings and loads.  TRACE_FILE: JSON array of          *)
-(*  [id, k = "list", keys, prefixGiven, size, result : Seq(n), raised]     *)
+(*  [id, k = "list", keys, prefixGiven, prefixKey, size, result : Seq(n), raised]     *)
 (*  [id, k = "load", what, outcomes : Seq([via, cls, ser])]                *)
 EXTENDS MosSources, TLC, TLCExt, Json, IOUtils
 Events == JsonDeserialize(IOEnv.TRACE_FILE)
@@ -8,14 +8,14 @@ VARIABLE l
 
 Failing(ev) ==
   IF ev.k = "list"
-  THEN LET want == Listing(ev.keys, ev.prefixGiven)
+  THEN LET want == Listing(ev.keys, ev.prefixGiven, ev.prefixKey)
        IN IF ev.raised = "~" /\ ev.result = [i \in DOMAIN want |-> want[i].n] THEN <<>> ELSE <<"s3_listing">>
   ELSE IF SourcesAgree(ev.outcomes) THEN <<>> ELSE <<"sources_same">>
 
 RECURSIVE KeyStr(_)
 KeyStr(ks) == IF ks = <<>> THEN "" ELSE (IF Head(ks).under THEN "u" ELSE "-") \o (IF Head(ks).suf = "end" THEN "s" ELSE IF Head(ks).suf = "mid" THEN "m" ELSE "-")
                                     \o (IF Len(ks) > 1 THEN "," ELSE "") \o KeyStr(Tail(ks))
-Sig(ev) == IF ev.k = "list" THEN "list[" \o KeyStr(ev.keys) \o "]/prefix=" \o ToString(ev.prefixGiven) \o "/page=" \o ToString(ev.size) \o "/" \o ev.how
+Sig(ev) == IF ev.k = "list" THEN "list[" \o (IF Len(ev.keys) > 9 THEN "big" \o ToString(Len(ev.keys)) ELSE KeyStr(ev.keys)) \o "]/prefix=" \o (IF ev.prefixKey # 0 THEN "key" \o ToString(ev.prefixKey) ELSE ToString(ev.prefixGiven)) \o "/page=" \o ToString(ev.size) \o "/" \o ev.how
            ELSE "load/" \o ev.what
 
 TInit == l = 1
